@@ -5,10 +5,8 @@ package isaacdatabase
 import (
 	"context"
 	"fmt"
-	"runtime"
 	"strings"
 	"testing"
-	"time"
 
 	"github.com/spikeekips/mitum/base"
 	"github.com/spikeekips/mitum/zzverif/vlib"
@@ -85,42 +83,22 @@ func c19cHeightOf(name string) int {
 // (the explorer does not call Check for every execution)
 var c19cPrev *vfDB
 
-// c19cFloor is the number of goroutines of the test process without any database.
-var c19cFloor int
-
-// c19cSettle waits until at most limit goroutines are left. The shims decide
-// between native and controlled behaviour on one global flag, so no goroutine of
-// the natively executed setup (job goroutines of SetStates / Center.dig that are
-// still releasing their semaphore when the call has already returned) may be
-// alive when the controlled execution starts.
-func c19cSettle(limit int) {
-	for i := 0; runtime.NumGoroutine() > limit; i++ {
-		if i > 50000 {
-			panic(fmt.Sprintf("harness: goroutines do not settle: %d > %d", runtime.NumGoroutine(), limit))
-		}
-
-		if i < 100 {
-			runtime.Gosched()
-
-			continue
-		}
-
-		time.Sleep(100 * time.Microsecond)
-	}
-}
+// No goroutine of the natively executed parts (setup in Build, the reads of
+// Check: job goroutines of SetStates / Center.dig / the permanent merge that
+// are still releasing their semaphore when the call has already returned) may
+// be alive when a controlled execution starts: the shims decide between native
+// and controlled behaviour on one global flag. vfSettle waits for them.
 
 func c19cBuild(env *vfEnv, c c19cScenario) vsched.Scenario {
 	if c19cPrev != nil {
-		c19cSettle(c19cPrev.goroutines)
+		vfSettle()
 		c19cPrev.closeNow()
 	}
-
-	c19cSettle(c19cFloor)
 
 	db := env.newDB(0)
 	c19cPrev = db
 
-	defer c19cSettle(db.goroutines)
+	defer vfSettle()
 	o := &c19cObs{}
 
 	var m vfModel
@@ -325,7 +303,6 @@ func TestVerifC19S(t *testing.T) {
 	defer r.Finish()
 
 	env := vfNewEnv()
-	c19cFloor = runtime.NumGoroutine()
 
 	bound := 1 // bound 2 is ~10^5..10^6 executions per scenario at ~100-300 executions/s (real leveldb under every execution): not affordable
 
